@@ -48,6 +48,7 @@ class WGen:
         self.vars = {}
         self.n = 0
         self.in_bits = 0
+        self.max_in = r.choice([4, 5, 6, 6, 12])     # few input bits: the verified certificate can enumerate all input vectors
         self.feat = set()
 
     def fresh(self, p="t"):
@@ -63,8 +64,10 @@ class WGen:
     def w(self, n): return self.vars[n][1]
 
     def pin(self, w):
-        if self.in_bits + w > 12:
+        if self.in_bits + w > self.max_in:
             c = [k for k, v in self.vars.items() if v == ('u', w) and k.startswith("i")]
+            if c: return self.r.choice(c)
+            c = [k for k, v in self.vars.items() if v[0] == 'u' and k.startswith("i") and v[1] <= 3]
             if c: return self.r.choice(c)
         n = self.fresh("i")
         self.emit(f"in {n} {w}")
@@ -73,7 +76,7 @@ class WGen:
 
     def pinb(self):
         c = [k for k, v in self.vars.items() if v[0] == 'b' and k.startswith("c")]
-        if c and (self.in_bits >= 12 or self.r.random() < 0.5): return self.r.choice(c)
+        if c and (self.in_bits >= self.max_in or self.r.random() < 0.5): return self.r.choice(c)
         n = self.fresh("c")
         self.emit(f"inb {n}")
         self.in_bits += 1
@@ -206,7 +209,7 @@ class WGen:
             self.emit(f"lit {kk} u{lo} {''.join(self.r.choice('01') for _ in range(lo))}")
             self.define(kk, lo)
             self.emit(f"bin {amt} cat {i} {kk}")
-            self.define(amt, lo + 2)
+            self.define(amt, lo + self.w(i))
         n = self.fresh("s")
         self.emit(f"bin {n} {self.r.choice(['shl', 'shr', 'rotl', 'rotr'])} {x} {amt}")
         self.feat.add("wide-shift")
